@@ -1,15 +1,27 @@
 /-
   C04 — precedence, associativity and parentheses determine expression structure.
+
+  The objects: expression trees (`Syntax.Expr`) built from leaves (number literals in the five
+  forms of `p_expression_number`, strings, error literals, `F()`, variables, cells, ranges),
+  unary minus and the eleven binary operators; token lists that spell such a tree
+  (`Syntax.RendersAt`, `Syntax.Renders` — ANY amount of redundant parentheses around ANY
+  sub-expression; `renderMin` — only the parentheses the generated precedence table makes
+  necessary; `renderFull` — parentheses around every operand that is not a leaf); the model of the
+  ply parser `Syntax.parseTokens` (precedence climbing with a fuel argument, driven by
+  `HotXL.Generated.precedence`) and the evaluator `Eval.evalExpr`.
+
+  Every theorem below that depends on the precedence table goes through `table_shape`,
+  `Syntax.table_left` or `Syntax.table_below_uminus`, which are `decide +kernel` facts about
+  `HotXL.Generated.precedence`: when the generated table changes so that an operator leaves the
+  table, stops being left-associative, climbs above unary minus, or the order
+  comparisons < `+ -` < `* /`, comparisons < `&` is disturbed, these proofs break.
 -/
-import HotXL.Model.Syntax
+import HotXL.Model.Eval
+import HotXL.Model.Render
+import HotXL.Lemmas.Syntax
 
 namespace HotXL.Props.C04
-open HotXL HotXL.Syntax
-
-/-- level of a binary operator in the generated table (0 = not in the table) -/
-def lvl (op : BinOp) : Nat := ((binLevel op).map (·.1)).getD 0
-/-- is the operator declared left-associative in the generated table? -/
-def isLeft (op : BinOp) : Bool := (binLevel op).map (·.2) = some Assoc.left
+open HotXL HotXL.Lexer HotXL.Syntax
 
 /-- the generated precedence table has the shape the statement requires: every comparison is
     looser than `+ -` and than `&`; `+ -` share a level, `* /` share a tighter level; unary minus
@@ -21,5 +33,259 @@ theorem table_shape :
     (∀ op ∈ [BinOp.add, .sub, .mul, .div, .amp, .eq, .ne, .lt, .gt, .le, .ge],
         0 < lvl op ∧ lvl op < uminusLevel ∧ isLeft op = true) := by
   decide +kernel
+
+/-! ### fuel -/
+
+/-- Fuel monotonicity: if the expression parser succeeds with fuel `f`, it succeeds with the same
+    tree and the same remaining tokens with every larger fuel (the same holds for the other four
+    functions of the mutual block: `Syntax.mono_all`). -/
+theorem fuel_monotone {f f' m : Nat} {ts : List Token} {v : Expr × List Token}
+    (h : parseExpr f m ts = .ok v) (hle : f ≤ f') : parseExpr f' m ts = .ok v :=
+  parseExpr_mono h hle
+
+/-- Fuel bound: for every rendering `ts` of a tree `t` (of any shape and depth), fuel
+    `2 * length ts + 1` is enough for the expression parser to consume all of `ts` and build `t`;
+    `parseTokens` runs with `3 * length ts + 3`. -/
+theorem fuel_sufficient {t : Expr} {ts : List Token} (h : Renders t ts) (f : Nat)
+    (hf : 2 * ts.length + 1 ≤ f) : parseExpr f 0 ts = .ok (t, []) := by
+  have h1 : parseExpr f 0 (ts ++ []) = .ok (t, []) :=
+    parseExpr_rendersAt h 0 (Nat.le_refl _) [] trivial 1 (t, []) (by simp [parseLoop]) f (by omega)
+  simpa using h1
+
+/-! ### the round trip -/
+
+/-- Parsing any rendering of a tree gives back exactly that tree — whatever redundant parentheses
+    the rendering carries, whatever the shape and depth of the tree.  (The structure of the parsed
+    expression is determined by levels, left-to-right grouping and parentheses alone.) -/
+theorem parse_renders (t : Expr) (toks : List Token) (h : Renders t toks) : parseTokens toks = .ok t :=
+  parseTokens_renders h
+
+/-- The minimally parenthesised rendering (parentheses only around a left operand of lower level,
+    a right operand of lower or equal level, and a binary operand of unary minus) parses to the
+    tree it was printed from. -/
+theorem parse_renderMin (t : Expr) (h : WellFormedTree t = true) : parseTokens (renderMin t) = .ok t :=
+  parse_renders t _ (renderMin_renders t h)
+
+/-- The fully parenthesised rendering parses to the tree it was printed from. -/
+theorem parse_renderFull (t : Expr) (h : WellFormedTree t = true) : parseTokens (renderFull t) = .ok t :=
+  parse_renders t _ (renderFull_renders t h).1
+
+/-- `renderMin` and `renderFull` are renderings in the sense of `Renders` (so the general theorem
+    applies to them), and wrapping a whole rendering in parentheses gives a rendering again. -/
+theorem printers_render (t : Expr) (h : WellFormedTree t = true) :
+    Renders t (renderMin t) ∧ Renders t (renderFull t) ∧
+    Renders t (lparTok :: renderMin t ++ [rparTok]) :=
+  ⟨renderMin_renders t h, (renderFull_renders t h).1, .paren _ _ (renderMin_renders t h)⟩
+
+/-- Redundant parentheses never change the structure: the minimal and the full rendering of a
+    tree parse to the same tree. -/
+theorem paren_transparent (t : Expr) (h : WellFormedTree t = true) :
+    parseTokens (renderMin t) = parseTokens (renderFull t) := by
+  rw [parse_renderMin t h, parse_renderFull t h]
+
+/-- Any two renderings of the same tree parse alike. -/
+theorem renderings_agree (t : Expr) (ts ts' : List Token) (h : Renders t ts) (h' : Renders t ts') :
+    parseTokens ts = parseTokens ts' := by
+  rw [parse_renders t ts h, parse_renders t ts' h']
+
+/-! ### values -/
+
+/-- parse a token list and evaluate the tree (with an empty event log), as `Parser.parse` does -/
+def evalTokens (env : Eval.Env) (toks : List Token) : PRes (Except Eval.Exn Value × Eval.Log) :=
+  match parseTokens toks with
+  | .error e => .error e
+  | .ok x => .ok (Eval.evalExpr env x [])
+
+/-- The value (and event log) of any rendering of a tree is the value of the tree, in every
+    environment. -/
+theorem eval_renders (env : Eval.Env) (t : Expr) (toks : List Token) (h : Renders t toks) :
+    evalTokens env toks = .ok (Eval.evalExpr env t []) := by
+  simp [evalTokens, parse_renders t toks h]
+
+/-- A fully parenthesised and a minimally parenthesised rendering of the same tree evaluate
+    identically, namely to the value of the tree. -/
+theorem eval_paren_transparent (env : Eval.Env) (t : Expr) (h : WellFormedTree t = true) :
+    evalTokens env (renderMin t) = .ok (Eval.evalExpr env t []) ∧
+    evalTokens env (renderFull t) = .ok (Eval.evalExpr env t []) :=
+  ⟨eval_renders env t _ (renderMin_renders t h), eval_renders env t _ (renderFull_renders t h).1⟩
+
+/-- The same at the level of `Parser.parse` (`Eval.parseTop`): if the token stream of a non-empty
+    formula is a rendering of the tree `t`, the record and the event log returned for the formula
+    are those of evaluating `t`. -/
+theorem formula_value_is_tree_value (env : Eval.Env) (s : List Char) (t : Expr) (hs : s ≠ [])
+    (h : Renders t (tokenize s)) :
+    Eval.parseTop env s = (Eval.finish (Eval.evalExpr env t []).1, (Eval.evalExpr env t []).2) := by
+  have hp : parseFormula s = .ok t := parse_renders t _ h
+  have he : s.isEmpty = false := by cases s <;> simp_all
+  simp [Eval.parseTop, he, hp]
+
+/-! ### three operands -/
+
+/-- an operand that binds as tightly as unary minus: a leaf, a negation, or anything in parentheses -/
+def Operand (x : Expr) (tx : List Token) : Prop := RendersAt uminusLevel x tx
+
+/-- every leaf spelling is an operand -/
+theorem operand_of_atom {x : Expr} {tx : List Token} (h : AtomToks x tx) : Operand x tx := .atom h
+
+/-- `x a y b z` with tight operands: if `b` does not bind tighter than `a` the parse is
+    `(x a y) b z`, otherwise `x a (y b z)`. -/
+theorem three_operands (a b : BinOp) {x y z : Expr} {tx ty tz : List Token}
+    (hx : Operand x tx) (hy : Operand y ty) (hz : Operand z tz) :
+    parseTokens (tx ++ opTok a :: ty ++ opTok b :: tz) =
+      .ok (if lvl b ≤ lvl a then .bin b (.bin a x y) z else .bin a x (.bin b y z)) := by
+  have ha := table_below_uminus a
+  have hb := table_below_uminus b
+  by_cases hab : lvl b ≤ lvl a
+  · rw [if_pos hab]
+    exact parse_renders _ _ (.bin _ (Nat.zero_le _)
+      (.bin _ hab (hx.mono (by omega)) (hy.mono (by omega))) (hz.mono (by omega)))
+  · rw [if_neg hab, List.append_assoc, List.cons_append]
+    exact parse_renders _ _ (.bin _ (Nat.zero_le _) (hx.mono (by omega))
+      (.bin _ (by omega) (hy.mono (by omega)) (hz.mono (by omega))))
+
+/-- Operators of equal level group left to right: `x a y b z` is `(x a y) b z`. -/
+theorem left_assoc (a b : BinOp) (hab : lvl a = lvl b) {x y z : Expr} {tx ty tz : List Token}
+    (hx : Operand x tx) (hy : Operand y ty) (hz : Operand z tz) :
+    parseTokens (tx ++ opTok a :: ty ++ opTok b :: tz) = .ok (.bin b (.bin a x y) z) := by
+  rw [three_operands a b hx hy hz, if_pos (by omega)]
+
+/-- In particular `+ -` chains and `* /` chains group left to right. -/
+theorem left_assoc_additive_multiplicative {x y z : Expr} {tx ty tz : List Token}
+    (hx : Operand x tx) (hy : Operand y ty) (hz : Operand z tz) :
+    (∀ a ∈ [BinOp.add, .sub], ∀ b ∈ [BinOp.add, .sub],
+      parseTokens (tx ++ opTok a :: ty ++ opTok b :: tz) = .ok (.bin b (.bin a x y) z)) ∧
+    (∀ a ∈ [BinOp.mul, .div], ∀ b ∈ [BinOp.mul, .div],
+      parseTokens (tx ++ opTok a :: ty ++ opTok b :: tz) = .ok (.bin b (.bin a x y) z)) := by
+  obtain ⟨_, h1, h2, _, _⟩ := table_shape
+  constructor
+  · intro a ha b hb
+    apply left_assoc a b _ hx hy hz
+    simp only [List.mem_cons, List.not_mem_nil, or_false] at ha hb
+    rcases ha with rfl | rfl <;> rcases hb with rfl | rfl <;> omega
+  · intro a ha b hb
+    apply left_assoc a b _ hx hy hz
+    simp only [List.mem_cons, List.not_mem_nil, or_false] at ha hb
+    rcases ha with rfl | rfl <;> rcases hb with rfl | rfl <;> omega
+
+/-- `* /` bind tighter than `+ -`: `x + y * z` is `x + (y * z)` and `x * y + z` is `(x * y) + z`
+    (for each of `+ -` and each of `* /`). -/
+theorem mul_over_add {x y z : Expr} {tx ty tz : List Token}
+    (hx : Operand x tx) (hy : Operand y ty) (hz : Operand z tz) :
+    ∀ a ∈ [BinOp.add, .sub], ∀ b ∈ [BinOp.mul, .div],
+      parseTokens (tx ++ opTok a :: ty ++ opTok b :: tz) = .ok (.bin a x (.bin b y z)) ∧
+      parseTokens (tx ++ opTok b :: ty ++ opTok a :: tz) = .ok (.bin a (.bin b x y) z) := by
+  obtain ⟨_, h1, h2, h3, _⟩ := table_shape
+  intro a ha b hb
+  have hlt : lvl a < lvl b := by
+    simp only [List.mem_cons, List.not_mem_nil, or_false] at ha hb
+    rcases ha with rfl | rfl <;> rcases hb with rfl | rfl <;> omega
+  constructor
+  · rw [three_operands a b hx hy hz, if_neg (by omega)]
+  · rw [three_operands b a hx hy hz, if_pos (by omega)]
+
+/-- Comparisons bind loosest: with `c` a comparison and `a` one of `+ - * / &`,
+    `x a y c z` is `(x a y) c z` and `x c y a z` is `x c (y a z)`. -/
+theorem cmp_loosest {x y z : Expr} {tx ty tz : List Token}
+    (hx : Operand x tx) (hy : Operand y ty) (hz : Operand z tz) :
+    ∀ c ∈ [BinOp.eq, .ne, .lt, .gt, .le, .ge], ∀ a ∈ [BinOp.add, .sub, .mul, .div, .amp],
+      parseTokens (tx ++ opTok a :: ty ++ opTok c :: tz) = .ok (.bin c (.bin a x y) z) ∧
+      parseTokens (tx ++ opTok c :: ty ++ opTok a :: tz) = .ok (.bin c x (.bin a y z)) := by
+  intro c hc a ha
+  have hlt : lvl c < lvl a := table_shape.1 c hc a ha
+  constructor
+  · rw [three_operands a c hx hy hz, if_pos (by omega)]
+  · rw [three_operands c a hx hy hz, if_neg (by omega)]
+
+/-- `&` binds tighter than every comparison: `x & y = z` is `(x & y) = z`, `x = y & z` is
+    `x = (y & z)`, for each of the six comparisons. -/
+theorem amp_over_cmp {x y z : Expr} {tx ty tz : List Token}
+    (hx : Operand x tx) (hy : Operand y ty) (hz : Operand z tz) :
+    ∀ c ∈ [BinOp.eq, .ne, .lt, .gt, .le, .ge],
+      parseTokens (tx ++ opTok .amp :: ty ++ opTok c :: tz) = .ok (.bin c (.bin .amp x y) z) ∧
+      parseTokens (tx ++ opTok c :: ty ++ opTok .amp :: tz) = .ok (.bin c x (.bin .amp y z)) :=
+  fun c hc => cmp_loosest hx hy hz c hc .amp (by simp)
+
+/-- Unary minus binds tightest: `- x op y` is `(- x) op y` and `x op - y` is `x op (- y)`, for
+    every binary operator; in particular `- x * y` is `(- x) * y`. -/
+theorem uminus_tightest (op : BinOp) {x y : Expr} {tx ty : List Token}
+    (hx : Operand x tx) (hy : Operand y ty) :
+    parseTokens (minusTok :: tx ++ opTok op :: ty) = .ok (.bin op (.neg x) y) ∧
+    parseTokens (tx ++ opTok op :: minusTok :: ty) = .ok (.bin op x (.neg y)) := by
+  have hop := table_below_uminus op
+  constructor
+  · exact parse_renders _ _ (.bin (tl := minusTok :: tx) _ (Nat.zero_le _) (.neg _ hx) (hy.mono (by omega)))
+  · exact parse_renders _ _ (.bin _ (Nat.zero_le _) (hx.mono (by omega)) (.neg _ hy))
+
+/-! ### non-vacuity: concrete trees of depth ≥ 3 -/
+
+section Examples
+
+private def n (s : String) : Expr := .num (.int s.toList)
+private def v (s : String) : Expr := .var [s.toList]
+private def c (s : String) : Expr := .cell s.toList
+private def showToks (ts : List Token) : String := String.join (ts.map (fun t => String.ofList t.text))
+
+/-- `-(1-x)*B2+4 < 5&(6/(7/8))`, depth 6 -/
+def ex1 : Expr :=
+  .bin .lt
+    (.bin .add (.bin .mul (.neg (.bin .sub (n "1") (v "x"))) (c "B2")) (n "4"))
+    (.bin .amp (n "5") (.bin .div (n "6") (.bin .div (n "7") (n "8"))))
+
+/-- `1-(2-(3-(4-x)))=(A1=B2)`, right-nested same-level operators, depth 5 -/
+def ex2 : Expr :=
+  .bin .eq (.bin .sub (n "1") (.bin .sub (n "2") (.bin .sub (n "3") (.bin .sub (n "4") (v "x")))))
+    (.bin .eq (c "A1") (c "B2"))
+
+/-- `--(1.5+2^3*50%)/PI()`, the other literal forms, depth 5 -/
+def ex3 : Expr :=
+  .bin .div
+    (.neg (.neg (.bin .add (.num (.dec ['1'] ['5']))
+      (.bin .mul (.num (.pow ['2'] ['3'])) (.num (.pct ['5', '0']))))))
+    (.call "PI".toList .empty [] [])
+
+example : WellFormedTree ex1 = true ∧ WellFormedTree ex2 = true ∧ WellFormedTree ex3 = true := by decide
+example : showToks (renderMin ex1) = "-(1-x)*B2+4<5&(6/(7/8))" := by decide +kernel
+example : showToks (renderFull ex1) = "(((-(1-x))*B2)+4)<(5&(6/(7/8)))" := by decide +kernel
+example : showToks (renderMin ex2) = "1-(2-(3-(4-x)))=(A1=B2)" := by decide +kernel
+example : showToks (renderFull ex2) = "(1-(2-(3-(4-x))))=(A1=B2)" := by decide +kernel
+example : showToks (renderMin ex3) = "--(1.5+2^3*50%)/PI()" := by decide +kernel
+example : showToks (renderFull ex3) = "(-(-(1.5+(2^3*50%))))/PI()" := by decide +kernel
+-- the theorems, instantiated
+example : parseTokens (renderMin ex1) = .ok ex1 := parse_renderMin ex1 (by decide)
+example : parseTokens (renderFull ex2) = .ok ex2 := parse_renderFull ex2 (by decide)
+-- and re-computed by evaluating the model parser itself
+example : parseTokens (renderMin ex1) = .ok ex1 := by rfl
+example : parseTokens (renderFull ex1) = .ok ex1 := by rfl
+example : parseTokens (renderMin ex2) = .ok ex2 := by rfl
+example : parseTokens (renderFull ex2) = .ok ex2 := by rfl
+example : parseTokens (renderMin ex3) = .ok ex3 := by rfl
+example : parseTokens (renderFull ex3) = .ok ex3 := by rfl
+
+/-- a rendering with redundant parentheses that is neither `renderMin` nor `renderFull`:
+    `((1))+(((2)*x))` for the tree `1+2*x` -/
+example : Renders (.bin .add (n "1") (.bin .mul (n "2") (v "x")))
+    ((lparTok :: (lparTok :: [⟨.NUMBER, ['1']⟩] ++ [rparTok]) ++ [rparTok]) ++ opTok .add ::
+      (lparTok :: (lparTok :: ((lparTok :: [⟨.NUMBER, ['2']⟩] ++ [rparTok]) ++ opTok .mul ::
+        [⟨.VARIABLE, ['x']⟩]) ++ [rparTok]) ++ [rparTok])) :=
+  .bin _ (Nat.zero_le _) (.paren _ _ (.paren _ _ (.atom (.int _))))
+    (.paren _ _ (.paren _ _ (.bin _ (Nat.zero_le _) (.paren _ _ (.atom (.int _))) (.atom (.var _ .nil)))))
+
+/-- the token stream of an actual formula string is a rendering: `Parser.parse("1+2*x")` evaluates
+    the tree `1+(2*x)` -/
+example : Renders (.bin .add (n "1") (.bin .mul (n "2") (v "x"))) (tokenize "1+2*x".toList) := by
+  have h : tokenize "1+2*x".toList =
+      [⟨.NUMBER, ['1']⟩] ++ opTok .add :: ([⟨.NUMBER, ['2']⟩] ++ opTok .mul :: [⟨.VARIABLE, ['x']⟩]) := by
+    decide +kernel
+  rw [h]
+  exact .bin _ (Nat.zero_le _) (.atom (.int _))
+    (.bin _ (by have := table_shape.2.2.2.1; omega) (.atom (.int _)) (.atom (.var _ .nil)))
+
+/-- operands of the three-operand theorems exist: leaves, negations, parenthesised trees -/
+example : Operand (n "1") [⟨.NUMBER, ['1']⟩] ∧
+    Operand (.neg (v "x")) [minusTok, ⟨.VARIABLE, ['x']⟩] ∧
+    Operand ex1 (lparTok :: renderMin ex1 ++ [rparTok]) :=
+  ⟨.atom (.int _), .neg _ (.atom (.var _ .nil)), .paren _ _ (renderMin_renders ex1 (by decide))⟩
+
+end Examples
 
 end HotXL.Props.C04
